@@ -27,12 +27,13 @@ def body(c):
     for a in (True, False):
         for b in (True, False):
             for cc in (True, False):
-                cases.append({"id": 0, "flavour": "static", "flags": [a, b, cc], "ts": {}, "dts": {}})
+                for incl in ("base", "all", "none"):   # dump query without / with includeDeprecated: true on fields, args, inputFields, enumValues
+                    cases.append({"id": 0, "flavour": "static", "flags": [a, b, cc], "incl": incl, "ts": {}, "dts": {}})
     nts = 60 if c.quick else 1500
     for k in range(nts):
         r = random.Random(c.seed * 104729 + k)
         ts, _objs = gqlgen.random_ts(r, n_obj=r.randint(2, 6))
-        cases.append({"id": 0, "flavour": "dynamic", "flags": [True, True, True], "ts": to_vis(ts), "dts": ts})
+        cases.append({"id": 0, "flavour": "dynamic", "flags": [True, True, True], "incl": ("base", "all", "none")[k % 3], "ts": to_vis(ts), "dts": ts})
     for i, x in enumerate(cases):
         x["id"] = i + 1
     vlib.write_ndjson(c.path("cases.ndjson"), cases)
@@ -48,8 +49,8 @@ def body(c):
     if len(verdicts) != len(obs):
         raise vlib.ToolError("V produced %d verdicts for %d cases" % (len(verdicts), len(obs)))
     for o in obs:
-        c.count_case({"f": o["flavour"], "flags": o["flags"], "ts": vlib.chash(o["ts"])}, nontrivial=True)
-        slim = {"flavour": o["flavour"], "flags": o["flags"], "ts": o["ts"] if o["flavour"] == "dynamic" else "schemas/vis.json",
+        c.count_case({"f": o["flavour"], "flags": o["flags"], "incl": o["incl"], "ts": vlib.chash(o["ts"])}, nontrivial=True)
+        slim = {"flavour": o["flavour"], "flags": o["flags"], "includeDeprecated": o["incl"], "ts": o["ts"] if o["flavour"] == "dynamic" else "schemas/vis.json",
                 "dump_types": [[t["name"], t["kind"], [f["name"] for f in t["fields"]], t["interfaces"], t["possibleTypes"], t["enumValues"]]
                                for t in o["obs"]["dump"]["types"] if not t["name"].startswith("__")], "problem": o["problem"]}
         c.verdict(verdicts[o["id"]], slim, "introspection: " + str(verdicts[o["id"]]))
@@ -57,7 +58,7 @@ def body(c):
     c.cov["exhaustive"] = False
     c.cov["visibility_contexts"] = 8
     c.cov["rule"] = ("static schema (interface inheritance Super > Node > objects) with visibility predicates on 2 object types, 1 interface, 3 fields, 1 argument, 1 input field, 1 enum value "
-                     "under all 8 flag contexts (exhaustive) + %d seeded random dynamic type systems (2-6 objects, interface inheritance, unions, "
+                     "under all 8 flag contexts (exhaustive), each dumped with includeDeprecated: true on fields/enumValues only, on args/inputFields too, and nowhere + %d seeded random dynamic type systems (2-6 objects, interface inheritance, unions, "
                      "enum, custom scalar); every case is non-trivial; distinct by (flavour, flags, type system)" % nts)
     for o in obs[:1] + obs[-1:]:
         c.sample({"flavour": o["flavour"], "flags": o["flags"], "types": [t["name"] for t in o["obs"]["dump"]["types"] if not t["name"].startswith("__")],
